@@ -11,7 +11,7 @@ from ..model import qual, get_kw
 from ..symx import Expander, ref_eval
 from ..anf import R
 from .. import anf
-from .common import formula_ob, struct_ob, guard, last_return, U
+from .common import memo_obligations, dtype_hazard_obligations, formula_ob, struct_ob, guard, last_return, U
 from ..report import AnalysisError
 from ..term import Resolver, pmatch, find_all, abstract, anf_of
 from ..seq import Layouts, UNKNOWN, show
@@ -31,7 +31,7 @@ CLASS_LAW = {
     "ExponentialPrior": ("exponential", {"scale": "beta"}),
     "UniformPrior": ("uniform", {"low": "lower", "high": "upper"}),
 }
-FLOORS = {"density-form": 3, "gradient-is-derivative": 3, "sampler-density-agreement": 3,
+FLOORS = {"float-arithmetic": 2, "density-form": 3, "gradient-is-derivative": 3, "sampler-density-agreement": 3,
           "bounds-are-support": 3, "support-guard": 2, "routing": 7, "posterior-sum": 4,
           "guess-order": 1, "combine-coverage": 1, "received-arrays": 4}
 
@@ -89,6 +89,8 @@ def run(prog, tier):
         def on_if(node, env, guards=guards, own_ifs=own_ifs):
             if id(node) in own_ifs and node not in guards:
                 guards.append(node)
+            if not isinstance(node, ast.If):
+                return "unsupported"
             body_ret = [s for s in node.body if isinstance(s, ast.Return)]
             if body_ret and floor_const(body_ret[0].value):
                 return "skip"          # out-of-support branch; continue on the in-support path
@@ -193,7 +195,7 @@ def run(prog, tier):
     jp = prog.cls("JointPrior")
     for mname in ("gradient", "sample"):
         c, fn = prog.method("JointPrior", mname)
-        obs.append(_scatter(c, fn, mname))
+        obs.append(_scatter(c, fn, mname, prog))
     c, fn = prog.method("JointPrior", "__call__")
     ret = last_return(fn)
     ok = False
@@ -226,6 +228,10 @@ def run(prog, tier):
     c, fn = prog.method("Posterior", "generate_initial_guesses")
     obs.append(_guess_order(c, fn))
     obs.extend(_received_arrays_not_mutated(prog))
+
+    obs.extend(dtype_hazard_obligations(prog, "float-arithmetic", ['inference/priors.py', 'inference/posterior.py']))
+
+    obs.extend(memo_obligations(prog, "cache-key", [prog.cls("BasePrior")] + prog.subclasses("BasePrior") + [prog.cls("Posterior")]))
 
     meta = {
         "explanation": "Normal-form equality of each prior's in-support value with the log-density of the numpy law "
@@ -339,26 +345,33 @@ def _combine(prog, ci, c, cfn, attrs):
     return out
 
 
-def _scatter(c, fn, mname):
-    """for c in self.components: out[c.variables] = c.<mname>(...)"""
-    ok, why = False, "no scatter loop found"
-    ret = last_return(fn)
-    for st in fn.body:
-        if isinstance(st, ast.For) and U(st.iter) == "self.components" and isinstance(st.target, ast.Name):
-            v = st.target.id
-            if len(st.body) == 1 and isinstance(st.body[0], ast.Assign):
-                a = st.body[0]
-                t = a.targets[0]
-                if (isinstance(t, ast.Subscript) and U(t.slice) == f"{v}.variables"
-                        and isinstance(a.value, ast.Call) and U(a.value.func) == f"{v}.{mname}"
-                        and [U(x) for x in a.value.args] == [p.arg for p in fn.args.args[1:]]
-                        and not a.value.keywords
-                        and ret is not None and U(ret.value) == U(t.value)):
-                    ok = True
-                else:
-                    why = f"scatter statement is `{U(a)}`"
-    return struct_ob("routing", qual(c, fn), ok,
-                     f"every component's {mname} must be written to that component's own `variables`: {why}",
+def _scatter(c, fn, mname, prog=None):
+    """for c in self.components: out[c.variables] = c.<mname>(...)   (decided on resolved terms)"""
+    rz = Resolver(fn, prog, c.module, c)
+    why = []
+    loops = [st for st in ast.walk(fn) if isinstance(st, ast.For) and U(rz.term(st.iter, st)) == "self.components" and isinstance(st.target, ast.Name)]
+    stores = []
+    for lp in loops:
+        v = lp.target.id
+        for a in ast.walk(lp):
+            if isinstance(a, ast.Assign) and isinstance(a.targets[0], ast.Subscript):
+                stores.append((lp, v, a))
+    if len(stores) != 1:
+        why.append(f"{len(stores)} scatter statements in loops over self.components")
+    else:
+        lp, v, a = stores[0]
+        t = a.targets[0]
+        args = ", ".join(p.arg for p in fn.args.args[1:])
+        val = rz.term(a.value, a)
+        rets = rz.returns()
+        if U(t.slice) != f"{v}.variables":
+            why.append(f"`{U(a)}` does not index with the component's own variables")
+        if pmatch(val, f"{v}.{mname}({args})") is None:
+            why.append(f"the scattered value is `{U(val)[:160]}`, not {v}.{mname}({args})")
+        if not (len(rets) == 1 and U(rz.term(rets[0].value, rets[0], keep=(U(t.value),))) == U(t.value)):
+            why.append("the scattered array is not what is returned")
+    return struct_ob("routing", qual(c, fn), not why,
+                     f"every component's {mname} must be written to that component's own `variables`: " + "; ".join(why),
                      REL, fn.lineno)
 
 
@@ -376,6 +389,16 @@ def _joint_bounds(jp, init, prog=None):
     else:
         t = L.rz.term(sb[0].value, sb[0], keep=tuple(nb + ni))
         ok = False
+        # the two zipped sequences may also be written in place: accept them when their layouts are the two concatenations
+        for pt in ("[_v[0] for _v in sorted([(_b, _i) for _b, _i in zip(_B, _I)], key=lambda z: z[1])]",
+                   "[_v[0] for _v in sorted(zip(_B, _I), key=lambda z: z[1])]",
+                   "[_b for _b, _i in sorted(zip(_B, _I), key=lambda z: z[1])]"):
+            bb = pmatch(t, pt)
+            if bb is not None:
+                lb = L.layout_of(ast.parse(bb["_B"], mode="eval").body, sb[0])
+                li = L.layout_of(ast.parse(bb["_I"], mode="eval").body, sb[0])
+                if lb == flat_b and li == flat_i:
+                    ok = True
         for b_ in nb or ["?"]:
             for i_ in ni or ["?"]:
                 for pt in (f"[_v[0] for _v in sorted([(_b, _i) for _b, _i in zip({b_}, {i_})], key=lambda z: z[1])]",
